@@ -41,9 +41,9 @@ P = {
  "C10": (True, "fault_enumeration", "fault enumeration: every failure position x fault kind over 39 container shapes with an instrumented element, ledger + counting allocator, native and AddressSanitizer, plus random multi-fault scripts",
    "Complete enumeration of (shape x failing element x {input exhausted at every byte, malformed, panic, depth-limit at every limit, mem-limit at every limit}) with a drop ledger and a byte-exact leak detector, repeated under AddressSanitizer in a crash-recovering worker; random multi-fault scripts on top.",
    "Monitors see only executed scripts; element decoder is part of the harness; N <= 40, nests two deep.", "§6 C10"),
- "C11": (True, "exploration", "property-based testing: limit sweep 0..=D+2 with transparency/monotonicity/threshold-band oracle; deep inputs on a 2 MiB stack in a crash-recovering worker",
-   "For generated wide/deep values and mutated strings every limit 0..=D_hi+2 is tried against five clauses (transparent, monotone, sufficient at D_hi, necessary below D_hi-1, decode_all variant); inputs nested up to 10^6 levels for five recursive types are decoded on a 2 MiB stack in a worker process whose death is the violation.",
-   "Threshold is a one-level band by design (leaf primitive containers are not counted by the crate); one stack size.", "§6 C11"),
+ "C11": (True, "exploration", "property-based testing: limit sweep 0..=D+2 with transparency/monotonicity/threshold oracle; deep inputs on a 2 MiB stack in a crash-recovering worker",
+   "For generated wide/deep values and mutated strings every limit 0..=D_hi+2 is tried against five clauses (transparent, monotone, sufficient at D_hi, necessary below D_lo = D_hi without leaf containers of bulk-read primitives/strings/bit sequences, decode_all variant); inputs nested up to 10^6 levels for five recursive types are decoded on a 2 MiB stack in a worker process whose death is the violation.",
+   "Leaf containers of bulk-read primitives, strings and bit sequences are not counted by the crate (its own test requires it), so for them either outcome is accepted at D_hi-1; one stack size.", "§6 C11"),
  "C12": (True, "exploration", "property-based testing: exhaustive limit sweep 0..=U+1 per input with threshold oracle and value-derived lower bound",
    "For valid and mutated inputs of every DecodeWithMemTracking zoo type every limit 0..=U+1 (U <= 4096; else partial sums of announced allocations and boundaries) is tried: transparent, succeeds above U, fails at or below U when U > 0, both entry points agree, U >= heap payload of the decoded value, U == 0 for heap-free values.",
    "Payload model states the property's lower bound (half for tree maps/sets).", "§6 C12"),
